@@ -322,3 +322,36 @@ Proof.
   unfold ordering_of_file. destruct (tokenize uc [] t); [|discriminate]. intros H. inversion H; subst o.
   rewrite number_from_ids. apply seq_NoDup.
 Qed.
+
+(** "variables listed in the file are ordered as in the file": the ordering read from a file is the list of its
+    distinct names in order of first appearance, numbered by position; the id of the name at position a is a *)
+Lemma dedup_names_NoDup : forall ws seen, NoDup (dedup_names seen ws) /\ forall w, In w (dedup_names seen ws) -> ~ In w seen.
+Proof.
+  induction ws as [|w ws IH]; intros seen; cbn [dedup_names]; [split; [constructor|intros w []]|].
+  destruct (existsb (name_eqb w) seen) eqn:E.
+  - apply IH.
+  - destruct (IH (w :: seen)) as [Hnd Hnot]. split.
+    + constructor; auto. intros Hin. apply (Hnot w Hin). left. reflexivity.
+    + intros x [<-|Hx].
+      * intros Hin. assert (existsb (name_eqb w) seen = true); [|congruence].
+        apply existsb_exists. exists w. split; auto. destruct (name_eqb_spec w w); [reflexivity|contradiction].
+      * intros Hin. apply (Hnot x Hx). right. exact Hin.
+Qed.
+Lemma assoc_number_from : forall ws k a w, NoDup ws -> nth_error ws a = Some w -> assoc w (number_from k ws) = Some (k + a).
+Proof.
+  induction ws as [|x ws IH]; intros k a w Hnd Ha; [destruct a; discriminate|].
+  inversion Hnd as [|? ? Hx Hnd']; subst. cbn [number_from assoc].
+  destruct a as [|a]; cbn [nth_error] in Ha.
+  - inversion Ha; subst. destruct (name_eqb_spec w w); [|contradiction]. f_equal. lia.
+  - destruct (name_eqb_spec x w) as [->|Hne]; [exfalso; apply Hx; eapply nth_error_In; eauto|].
+    rewrite (IH (S k) a w Hnd' Ha). f_equal. lia.
+Qed.
+Theorem C11_file_order uc t o : ordering_of_file uc t = Done o ->
+  exists ws, NoDup ws /\ o = number_from 0 ws /\ ws = dedup_names [] (ident_names (lex_raw uc t)) /\
+    forall a w, nth_error ws a = Some w -> assoc w o = Some a.
+Proof.
+  unfold ordering_of_file. destruct (tokenize uc [] t); [|discriminate]. intros H. inversion H; subst o.
+  exists (dedup_names [] (ident_names (lex_raw uc t))). destruct (dedup_names_NoDup (ident_names (lex_raw uc t)) []) as [Hnd _].
+  split; [exact Hnd|]. split; [reflexivity|]. split; [reflexivity|].
+  intros a w Ha. rewrite (assoc_number_from _ 0 a w Hnd Ha). reflexivity.
+Qed.
